@@ -48,6 +48,43 @@ type vDebScenario struct {
 	BodyUs     []int      `json:"body_us"`
 	Scripts    [][]vDebOp `json:"scripts"`
 	Burst      []int      `json:"burst"`
+	// Real: the reload action is the REAL generateAndReloadConfigFile (file in a temp dir,
+	// package hook reloadConfig scripted); Fails then scripts the reloadConfig calls
+	Real bool `json:"real"`
+}
+
+// state of the scripted reloadConfig hook for the real-body scenarios (run one at a time)
+type vDebRealState struct {
+	mu      sync.Mutex
+	path    string
+	fails   []bool
+	calls   int
+	okCalls int
+	loaded  string // content of the config file at the last successful reload signal = what FRR runs
+}
+
+var vDebReal vDebRealState
+
+func vDebRealHook() error {
+	vDebReal.mu.Lock()
+	defer vDebReal.mu.Unlock()
+	k := vDebReal.calls
+	vDebReal.calls++
+	if k < len(vDebReal.fails) && vDebReal.fails[k] {
+		return errors.New("scripted failure of the reload signal")
+	}
+	b, err := os.ReadFile(vDebReal.path)
+	if err != nil {
+		return err
+	}
+	vDebReal.okCalls++
+	vDebReal.loaded = string(b)
+	return nil
+}
+
+func vDebMkConfig(c int) *frrConfig {
+	// a fresh object every time: equality must be by content (reflect.DeepEqual)
+	return &frrConfig{Hostname: strconv.Itoa(c), Routers: []*routerConfig{{MyASN: uint32(c)}}}
 }
 
 func vDebGen(r *rand.Rand) vDebScenario {
@@ -140,7 +177,7 @@ func (d *vDebRun) send(ch chan reloadEvent, reapply bool, c int) {
 		d.add("TR", 0, false)
 	} else {
 		// a fresh object every time: equality must be by content (reflect.DeepEqual)
-		ev = reloadEvent{config: &frrConfig{Hostname: strconv.Itoa(c), Routers: []*routerConfig{{MyASN: uint32(c)}}}}
+		ev = reloadEvent{config: vDebMkConfig(c)}
 		d.add("TS", c, false)
 	}
 	d.mu.Unlock()
@@ -231,6 +268,20 @@ func vDebRunScenario(sc vDebScenario) (*vDebRun, map[string]int) {
 		}
 		return nil
 	}
+	if sc.Real {
+		body = func(c *frrConfig) error {
+			err := generateAndReloadConfigFile(c, log.NewNopLogger())
+			d.mu.Lock()
+			k := d.calls
+			d.calls++
+			d.add("TB", vDebCfgID(c), err == nil) // logged on return: the loop receives nothing while the action runs
+			d.mu.Unlock()
+			if us := sc.BodyUs[k%len(sc.BodyUs)]; us > 0 {
+				time.Sleep(time.Duration(us) * time.Microsecond)
+			}
+			return err
+		}
+	}
 	ch := make(chan reloadEvent)
 	interval := time.Duration(sc.IntervalUs) * time.Microsecond
 	retry := time.Duration(sc.RetryUs) * time.Microsecond
@@ -275,10 +326,16 @@ func vDebRunScenario(sc vDebScenario) (*vDebRun, map[string]int) {
 		n0 = d.calls
 		d.mu.Unlock()
 		// phase 2b: a re-apply request while nothing is pending must reload the same configuration once
+		vDebReal.mu.Lock()
+		ok0 := vDebReal.okCalls
+		vDebReal.mu.Unlock()
 		d.send(ch, true, 0)
 		d.quiet(calm, patience)
 		d.mu.Lock()
 		info["reapply_calls"] = d.calls - n0
+		vDebReal.mu.Lock()
+		info["real_reapply_ok"] = vDebReal.okCalls - ok0
+		vDebReal.mu.Unlock()
 		info["reapply_failing"] = 0
 		for k := n0; k < d.calls; k++ {
 			if k < len(sc.Fails) && sc.Fails[k] {
@@ -395,6 +452,34 @@ func vDebOracle(out *vOut, sc vDebScenario, d *vDebRun, info map[string]int) {
 			out.Fail("deb-reapply-not-once", fmt.Sprintf("a re-apply request with nothing pending caused %d reload calls", n), replay)
 		}
 	}
+	if sc.Real {
+		// the property on the real action: once failures stopped, FRR has been signalled successfully
+		// while the file held the latest submitted configuration
+		last := -1
+		for _, it := range d.trace {
+			if it.K == "TS" {
+				last = it.C
+			}
+		}
+		vDebReal.mu.Lock()
+		loaded, okCalls, calls := vDebReal.loaded, vDebReal.okCalls, vDebReal.calls
+		path := vDebReal.path
+		vDebReal.mu.Unlock()
+		out.Stat("real_body_scenarios", 1)
+		out.Stat("real_reload_signal_calls", calls)
+		out.Stat("real_reload_signal_failures", calls-okCalls)
+		if last != -1 {
+			want, err := templateConfig(vDebMkConfig(last))
+			onDisk, _ := os.ReadFile(path)
+			if err != nil || loaded != want || string(onDisk) != want {
+				out.Fail("deb-real-latest-not-loaded", fmt.Sprintf("real reload action: after the failures stopped the last successful reload signal (of %d successful, %d calls) saw a file that is not the latest submitted configuration %d (file on disk equal to it: %v)",
+					okCalls, calls, last, string(onDisk) == want), replay)
+			}
+		}
+		if n, ok := info["real_reapply_ok"]; ok && info["reapply_failing"] == 0 && n != 1 {
+			out.Fail("deb-real-reapply-not-reloaded", fmt.Sprintf("real reload action: a re-apply request with nothing pending caused %d successful reload signals", n), replay)
+		}
+	}
 	if info["burst_fast"] == 1 && info["burst_failing"] == 0 {
 		out.Stat("burst_checked", 1)
 		if info["burst_calls"] != 1 {
@@ -489,6 +574,14 @@ func vDebValidateCases(out *vOut, r *rand.Rand, id *int) {
 	}
 }
 
+type vDebRealSnap struct {
+	loaded, path string
+	ok, calls    int
+}
+
+var vDebRealSnapshots []vDebRealSnap
+var vDebOracleReal bool
+
 func TestVerifDeb(t *testing.T) {
 	out := vOpen()
 	defer out.Close()
@@ -519,10 +612,50 @@ func TestVerifDeb(t *testing.T) {
 		}(i)
 	}
 	wg.Wait()
+	// real-body scenarios: one at a time (they share the package hook and the config file name)
+	nreal := 6
+	if vThorough() {
+		nreal = 40
+	}
+	dir, err := os.MkdirTemp("", "verif-frr-deb")
+	if err != nil {
+		t.Fatal(err)
+	}
+	defer os.RemoveAll(dir)
+	savedHook := reloadConfig
+	reloadConfig = vDebRealHook
+	defer func() { reloadConfig = savedHook }()
+	for k := 0; k < nreal; k++ {
+		sc := vDebGen(r)
+		sc.Real = true
+		if k == 0 { // the reload signal fails once after the file was written
+			sc = vDebScenario{IntervalUs: 4000, RetryUs: 3000, Fails: []bool{true}, BodyUs: []int{0}, Real: true,
+				Scripts: [][]vDebOp{{{0, false, 7}}}, Burst: []int{100, 101}}
+		}
+		path := filepath.Join(dir, fmt.Sprintf("frr-%d.conf", k))
+		os.Setenv("FRR_CONFIG_FILE", path)
+		vDebReal.mu.Lock()
+		vDebReal.path, vDebReal.fails, vDebReal.calls, vDebReal.okCalls, vDebReal.loaded = path, sc.Fails, 0, 0, ""
+		vDebReal.mu.Unlock()
+		d, info := vDebRunScenario(sc)
+		scs = append(scs, sc)
+		results = append(results, res{d, info})
+		// the oracle reads the hook state of THIS scenario: evaluate now
+		vDebOracleReal = true
+		_ = vDebOracleReal
+		vDebRealSnapshots = append(vDebRealSnapshots, vDebRealSnap{loaded: vDebReal.loaded, ok: vDebReal.okCalls, calls: vDebReal.calls, path: path})
+	}
+	os.Unsetenv("FRR_CONFIG_FILE")
 	id := 0
 	for i, rs := range results {
 		id++
 		out.Case(id, "frr-debouncer", vDebCoq(id, rs.d.trace), map[string]any{"scenario": scs[i], "trace": rs.d.trace})
+		if scs[i].Real { // restore the hook state this scenario ended with
+			sn := vDebRealSnapshots[i-n]
+			vDebReal.mu.Lock()
+			vDebReal.loaded, vDebReal.okCalls, vDebReal.calls, vDebReal.path = sn.loaded, sn.ok, sn.calls, sn.path
+			vDebReal.mu.Unlock()
+		}
 		vDebOracle(out, scs[i], rs.d, rs.info)
 		out.Stat("traces", 1)
 		nb, nfail, nre, nsub, between := 0, 0, 0, 0, 0
